@@ -60,3 +60,27 @@ func main() {
 	}
 	r(*seed, *tier, *out)
 }
+
+func writeFile(dir, name, content string) {
+	if err := os.WriteFile(filepath.Join(dir, name), []byte(content), 0644); err != nil {
+		panic(err)
+	}
+}
+
+func readMeta(dir string) *Meta {
+	b, err := os.ReadFile(filepath.Join(dir, "meta.json"))
+	if err != nil {
+		panic(err)
+	}
+	m := &Meta{}
+	if err := json.Unmarshal(b, m); err != nil {
+		panic(err)
+	}
+	if m.Distribution == nil {
+		m.Distribution = map[string]int{}
+	}
+	if m.Cases == nil {
+		m.Cases = map[string]interface{}{}
+	}
+	return m
+}
